@@ -155,6 +155,16 @@ impl<'a, P: ?Sized + PathImpl> PathMutImpl<'a, P> {
 				replace(self.buffer, start..self.end, b"./");
 				self.end = start + 2;
 			} else {
+				if i == start + 1 && self.buffer[start] == b'.' {
+					let popped = &self.buffer[(i + 1)..self.end];
+					if popped.is_empty() || popped.contains(&b':') {
+						// The remaining `.` is the prefix `push` adds in front
+						// of a first segment that is empty or contains a `:`.
+						// It has no purpose anymore.
+						i = start;
+					}
+				}
+
 				replace(self.buffer, i..self.end, &[]);
 				self.end = i;
 			}
